@@ -1941,6 +1941,73 @@ fn datagrams(ctx: &mut Ctx, run: &IoRun) {
     }
 }
 
+/// Uncompressed deserialisation. The pinned tree does not offer this mode
+/// (`unimplemented!()`), which is accepted as "not offered". If a tree does
+/// offer it, C06 applies: whatever it hands out must be a valid representative.
+fn uncompressed(ctx: &mut Ctx, run: &IoRun) {
+    for u in &run.uncompressed {
+        let b = match unhex(&u.bytes) {
+            Some(b) => b,
+            None => continue,
+        };
+        ctx.ev("uncompressed");
+        let (res, st) = {
+            let mut src = SimSource::new(&b, 0, &u.rplan);
+            let as_ = u.as_;
+            let r = catch_unwind(AssertUnwindSafe(|| -> Result<Option<Pt>, SerializationError> {
+                Ok(match as_ {
+                    ElemAs::Element => bridge::elem_to_pt(&Element::deserialize_uncompressed(&mut src)?),
+                    ElemAs::Affine => Some(bridge::affine_to_pt(&AffinePoint::deserialize_uncompressed(&mut src)?)),
+                    ElemAs::Encoding => {
+                        let enc = Encoding::deserialize_uncompressed(&mut src)?;
+                        match enc.vartime_decompress() {
+                            Ok(e) => bridge::elem_to_pt(&e),
+                            Err(_) => return Err(SerializationError::InvalidData),
+                        }
+                    }
+                })
+            }));
+            (r, src.stats.clone())
+        };
+        ctx.seam_stats(&st, "r");
+        match res {
+            Err(p) => {
+                let msg = panic_msg(p);
+                if msg.contains("not implemented") {
+                    ctx.probe("uncompressed_mode_not_offered");
+                } else {
+                    ctx.viol(
+                        "C02",
+                        "panic",
+                        format!("op=deserialize_uncompressed as={:?}", u.as_),
+                        format!("{} -> panic: {}", u.bytes, msg),
+                    );
+                }
+            }
+            Ok(Err(_)) => ctx.probe("uncompressed_rejected"),
+            Ok(Ok(pt)) => {
+                let bad = match &pt {
+                    None => Some("affine_conversion_panics"),
+                    Some(p) => rd::valid_representative(p).err(),
+                };
+                match bad {
+                    Some(reason) => ctx.viol(
+                        "C06",
+                        "invalid_element",
+                        format!("source=deserialize_uncompressed as={:?} reason={}", u.as_, reason),
+                        format!(
+                            "uncompressed deserialisation of {} handed out {}",
+                            u.bytes,
+                            pt.as_ref().map(bridge::pt_hex).unwrap_or_default()
+                        ),
+                    ),
+                    None => ctx.probe("uncompressed_accepted_valid_element"),
+                }
+            }
+        }
+    }
+}
+
 fn history_checks(ctx: &mut Ctx, received: &[Received]) {
     // durability / exactly-what-was-sent: intact honest records arrive as the element that was sent
     for r in received {
@@ -2030,6 +2097,7 @@ pub fn execute(run: &IoRun, logging: bool) -> Outcome {
     apply_channel(&mut ctx, run, &mut segs);
     let received = receive_all(&mut ctx, run, &segs);
     datagrams(&mut ctx, run);
+    uncompressed(&mut ctx, run);
     history_checks(&mut ctx, &received);
     ctx.out.trace = ctx.trace.finish();
     ctx.out
